@@ -105,8 +105,14 @@ func dualContour(r *vlib.Run) {
 		if rng.Intn(3) == 0 {
 			dc.CubeMargin = []float64{1e-4, 0.05, 0.2}[rng.Intn(3)]
 		}
+		if rng.Intn(4) == 0 {
+			dc.SingularValueEpsilon = []float64{1e-3, 0.03, 0.3, 0.9}[rng.Intn(4)]
+		}
+		if dc.Repair && rng.Intn(2) == 0 {
+			dc.RepairEpsilon = []float64{1e-4, 1e-3, 0.05}[rng.Intn(3)]
+		}
 		opts := map[string]interface{}{"delta": fmt.Sprintf("%x", delta), "repair": dc.Repair, "nojitter": dc.NoJitter, "maxgos": dc.MaxGos,
-			"bufsize": dc.BufferSize, "trimode": int(dc.TriangleMode), "margin": dc.CubeMargin}
+			"bufsize": dc.BufferSize, "trimode": int(dc.TriangleMode), "margin": dc.CubeMargin, "svd_eps": dc.SingularValueEpsilon, "repair_eps": dc.RepairEpsilon}
 		wit := witness(s, opts)
 		xs, ys, zs, bufRows := model3d.VerifDcLattice(s.min, s.max, delta, dc.NoJitter, dc.BufferSize)
 		if len(zs) < 3 {
